@@ -127,3 +127,296 @@ Proof. apply nonneg_lens_wnonneg_gen. Qed.
 
 Lemma pos_lens_wnonneg dflt t : pos_lens t = true -> wnonneg dflt t.
 Proof. apply lens_ok_wnonneg. intros z Hz. apply Z.ltb_lt in Hz. lia. Qed.
+
+(* ------------------------------------------------------------------ (2) re-rooting *)
+
+(** the converted parent, as a list of zero or one trees *)
+Definition upl (t : tree) (ctx : option (list tree)) : list tree :=
+  match ctx with
+  | None => []
+  | Some ks => [Node (tname t) (tlen t) ks]
+  end.
+
+Lemma reroot_go_nil t ctx :
+  reroot_go t [] ctx = Some (Node root_name None (kids t ++ upl t ctx)).
+Proof. reflexivity. Qed.
+
+Lemma reroot_go_cons t i rest ctx :
+  reroot_go t (i :: rest) ctx =
+  match nth_error (kids t) i with
+  | None => None
+  | Some c => reroot_go c rest (Some (remove_nth i (kids t) ++ upl t ctx))
+  end.
+Proof. reflexivity. Qed.
+
+Lemma tips_kids t : kids t <> [] -> tips t = tips_of (kids t).
+Proof. destruct t as [n l cs]. apply tips_node. Qed.
+
+Lemma subtree_at_kids p : forall t x,
+  subtree_at t p = Some x -> kids x <> [] -> kids t <> [].
+Proof.
+  destruct p as [|i p]; intros t x H Hx; cbn [subtree_at] in H.
+  - inversion H; subst. exact Hx.
+  - destruct (kids t) as [|k ks]; [|discriminate].
+    destruct i; discriminate.
+Qed.
+
+Lemma tips_of_upl_some c ks : ks <> [] -> tips_of (upl c (Some ks)) = tips_of ks.
+Proof.
+  intros H. cbn [upl]. rewrite tips_of_cons, (tips_node _ _ _ H).
+  change (tips_of []) with (@nil name). apply app_nil_r.
+Qed.
+
+Lemma edge_w_up dflt a b c ks :
+  ks <> [] ->
+  NoDup (tips c ++ tips_of ks) -> In a (tips c ++ tips_of ks) -> In b (tips c ++ tips_of ks) ->
+  edge_w dflt (Node (tname c) (tlen c) ks) a b = edge_w dflt c a b.
+Proof.
+  intros Hks HN Ha Hb. unfold edge_w.
+  assert (Hs : sep (Node (tname c) (tlen c) ks) a b = sep c a b).
+  { unfold sep. rewrite (tips_node _ _ _ Hks). symmetry. apply xor_sides; assumption. }
+  rewrite Hs. reflexivity.
+Qed.
+
+Lemma reroot_inv dflt a b : forall path t ctx x r,
+  subtree_at t path = Some x -> kids x <> [] ->
+  (forall ks, ctx = Some ks -> ks <> []) ->
+  (ctx = None -> path <> [] -> (2 <= length (kids t))%nat) ->
+  NoDup (tips t ++ tips_of (upl t ctx)) ->
+  In a (tips t ++ tips_of (upl t ctx)) ->
+  In b (tips t ++ tips_of (upl t ctx)) ->
+  reroot_go t path ctx = Some r ->
+  Permutation (tips r) (tips t ++ tips_of (upl t ctx)) /\
+  pathlen dflt r a b = pathlen dflt t a b + contribs dflt a b (upl t ctx).
+Proof.
+  induction path as [|i rest IH]; intros t ctx x r Hsub Hx Hctx Hroot HN Ha Hb Hgo.
+  - cbn [subtree_at] in Hsub. inversion Hsub; subst x. clear Hsub.
+    rewrite reroot_go_nil in Hgo. inversion Hgo; subst r. clear Hgo.
+    assert (Hne : kids t ++ upl t ctx <> []).
+    { intros E. apply app_eq_nil in E. tauto. }
+    split.
+    + rewrite (tips_node _ _ _ Hne), tips_of_app, <- (tips_kids t Hx). reflexivity.
+    + rewrite pathlen_node, contribs_app. destruct t as [n l cs]. reflexivity.
+  - rewrite reroot_go_cons in Hgo. cbn [subtree_at] in Hsub.
+    destruct (nth_error (kids t) i) as [c|] eqn:Hnth; [|discriminate].
+    pose proof (remove_nth_perm _ _ _ Hnth) as HP.
+    set (rm := remove_nth i (kids t)) in *.
+    pose proof (subtree_at_kids _ _ _ Hsub Hx) as Hkc.
+    assert (Hkt : kids t <> []).
+    { intros E. rewrite E in Hnth. destruct i; discriminate. }
+    set (ks' := rm ++ upl t ctx) in *.
+    assert (Hks' : ks' <> []).
+    { unfold ks'. intros E. apply app_eq_nil in E. destruct E as [E1 E2].
+      destruct ctx as [ks|]; [discriminate|].
+      assert (Hi : i :: rest <> []) by discriminate.
+      specialize (Hroot eq_refl Hi).
+      apply Permutation_length in HP. rewrite E1 in HP. simpl in HP. lia. }
+    (* the universe is the same *)
+    assert (HU : Permutation (tips t ++ tips_of (upl t ctx))
+                             (tips c ++ tips_of (upl c (Some ks')))).
+    { rewrite (tips_of_upl_some c ks' Hks'). unfold ks'. rewrite tips_of_app, app_assoc.
+      apply Permutation_app_tail. rewrite (tips_kids t Hkt).
+      apply (tips_of_perm _ _ HP). }
+    assert (HN' : NoDup (tips c ++ tips_of (upl c (Some ks')))).
+    { eapply Permutation_NoDup; [exact HU|exact HN]. }
+    assert (Ha' : In a (tips c ++ tips_of (upl c (Some ks')))).
+    { eapply Permutation_in; [exact HU|exact Ha]. }
+    assert (Hb' : In b (tips c ++ tips_of (upl c (Some ks')))).
+    { eapply Permutation_in; [exact HU|exact Hb]. }
+    assert (Hctx' : forall ks, Some ks' = Some ks -> ks <> []).
+    { intros ks E. inversion E; subst. exact Hks'. }
+    assert (Hroot' : Some ks' = None -> rest <> [] -> (2 <= length (kids c))%nat).
+    { intros E. discriminate. }
+    destruct (IH c (Some ks') x r Hsub Hx Hctx' Hroot' HN' Ha' Hb' Hgo) as [HPr HLr].
+    split.
+    + etransitivity; [exact HPr|]. symmetry. exact HU.
+    + rewrite HLr. cbn [upl]. rewrite contribs_cons.
+      unfold contrib at 1. rewrite pathlen_node.
+      assert (HE : edge_w dflt (Node (tname c) (tlen c) ks') a b = edge_w dflt c a b).
+      { apply edge_w_up; [exact Hks'| | |].
+        - rewrite (tips_of_upl_some c ks' Hks') in HN'. exact HN'.
+        - rewrite (tips_of_upl_some c ks' Hks') in Ha'. exact Ha'.
+        - rewrite (tips_of_upl_some c ks' Hks') in Hb'. exact Hb'. }
+      rewrite HE. unfold ks'. rewrite contribs_app.
+      assert (Hpt : pathlen dflt t a b = contrib dflt a b c + contribs dflt a b rm).
+      { destruct t as [n l cs]. rewrite pathlen_node. cbn [kids] in HP.
+        rewrite (contribs_perm _ _ _ _ _ HP). apply contribs_cons. }
+      rewrite Hpt. unfold contrib. change (contribs dflt a b []) with 0. lia.
+Qed.
+
+Theorem reroot_preserves : forall dflt t path x r a b,
+  subtree_at t path = Some x -> kids x <> [] ->
+  ((2 <= length (kids t))%nat \/ (path = [] /\ kids t <> [])) ->
+  NoDup (tips t) -> In a (tips t) -> In b (tips t) ->
+  reroot_go t path None = Some r ->
+  Permutation (tips r) (tips t) /\ pathlen dflt r a b = pathlen dflt t a b.
+Proof.
+  intros dflt t path x r a b Hsub Hx Hroot HN Ha Hb Hgo.
+  assert (HU : tips t ++ tips_of (upl t None) = tips t).
+  { cbn [upl]. change (tips_of []) with (@nil name). apply app_nil_r. }
+  destruct (reroot_inv dflt a b path t None x r Hsub Hx) as [HP HL].
+  - intros ks E. discriminate.
+  - intros _ Hp. destruct Hroot as [H2|[Hnil _]]; [exact H2|contradiction].
+  - rewrite HU. exact HN.
+  - rewrite HU. exact Ha.
+  - rewrite HU. exact Hb.
+  - exact Hgo.
+  - rewrite HU in HP. split; [exact HP|].
+    rewrite HL. cbn [upl]. change (contribs dflt a b []) with 0. lia.
+Qed.
+
+(** [find_path] returns the path of a node of the tree with that name *)
+Lemma find_path_sound nm t : forall p,
+  find_path nm t = Some p -> exists y, subtree_at t p = Some y /\ tname y = nm.
+Proof.
+  induction t as [n l cs IH] using tree_ind'. intros p. cbn [find_path].
+  destruct (str_eqb n nm) eqn:En.
+  - intros E. inversion E; subst p. exists (Node n l cs). split; [reflexivity|].
+    apply str_eqb_eq. exact En.
+  - assert (Hgo : forall i p,
+      (fix go (i : nat) (l0 : list tree) {struct l0} : option (list nat) :=
+         match l0 with
+         | [] => None
+         | c :: r => match find_path nm c with
+                     | Some p0 => Some (i :: p0)
+                     | None => go (S i) r
+                     end
+         end) i cs = Some p ->
+      exists j q c y, p = (i + j)%nat :: q /\ nth_error cs j = Some c /\
+                      subtree_at c q = Some y /\ tname y = nm).
+    { induction cs as [|c cs IHcs]; intros i p0 E; [discriminate|].
+      inversion IH as [|? ? Hc IH']; subst.
+      destruct (find_path nm c) as [q|] eqn:Ef.
+      - inversion E; subst p0. destruct (Hc q eq_refl) as (y & Hy1 & Hy2).
+        exists O, q, c, y. rewrite Nat.add_0_r. repeat split; assumption.
+      - destruct (IHcs IH' (S i) p0 E) as (j & q & k & y & Hp & Hn & Hs & Hnm).
+        exists (S j), q, k, y. rewrite Nat.add_succ_r. repeat split; assumption. }
+    intros E. destruct (Hgo O p E) as (j & q & c & y & Hp & Hn & Hs & Hnm).
+    subst p. exists y. split; [|exact Hnm].
+    cbn [subtree_at kids Nat.add]. rewrite Hn. exact Hs.
+Qed.
+
+Lemma subtree_at_removelast : forall p t y,
+  subtree_at t p = Some y -> p <> [] ->
+  exists x, subtree_at t (removelast p) = Some x /\ kids x <> [].
+Proof.
+  induction p as [|i p IH]; intros t y Hs Hp; [contradiction|].
+  destruct p as [|j p].
+  - exists t. split; [reflexivity|]. cbn [subtree_at] in Hs.
+    intros E. rewrite E in Hs. destruct i; discriminate.
+  - change (removelast (i :: j :: p)) with (i :: removelast (j :: p)).
+    cbn [subtree_at] in Hs |- *.
+    destruct (nth_error (kids t) i) as [c|]; [|discriminate].
+    apply (IH c y Hs). discriminate.
+Qed.
+
+Theorem rooted_at_preserves : forall dflt t nm r a b,
+  (2 <= length (kids t))%nat -> NoDup (tips t) -> In a (tips t) -> In b (tips t) ->
+  rooted_at t nm = Ok r ->
+  Permutation (tips r) (tips t) /\ pathlen dflt r a b = pathlen dflt t a b.
+Proof.
+  intros dflt t nm r a b H2 HN Ha Hb Hr. unfold rooted_at in Hr.
+  destruct (find_path nm t) as [p|] eqn:Ef; [|discriminate].
+  destruct (subtree_at t p) as [x|] eqn:Es; [|discriminate].
+  destruct (is_tip x) eqn:Et; [discriminate|].
+  destruct (reroot_go t p None) as [r'|] eqn:Eg; [|discriminate].
+  inversion Hr; subst r'.
+  apply (reroot_preserves dflt t p x r a b Es); try assumption.
+  - unfold is_tip in Et. intros E. rewrite E in Et. discriminate.
+  - left. exact H2.
+Qed.
+
+Theorem rooted_with_tip_preserves : forall dflt t nm r a b,
+  (2 <= length (kids t))%nat -> NoDup (tips t) -> In a (tips t) -> In b (tips t) ->
+  rooted_with_tip t nm = Ok r ->
+  Permutation (tips r) (tips t) /\ pathlen dflt r a b = pathlen dflt t a b.
+Proof.
+  intros dflt t nm r a b H2 HN Ha Hb Hr. unfold rooted_with_tip in Hr.
+  destruct (find_path nm t) as [p|] eqn:Ef; [|discriminate].
+  destruct (find_path_sound nm t p Ef) as (y & Hy & _).
+  destruct p as [|i p]; [discriminate|].
+  destruct (reroot_go t (removelast (i :: p)) None) as [r'|] eqn:Eg; [|discriminate].
+  inversion Hr; subst r'.
+  destruct (subtree_at_removelast (i :: p) t y Hy) as (x & Hx1 & Hx2); [discriminate|].
+  apply (reroot_preserves dflt t (removelast (i :: p)) x r a b Hx1); try assumption.
+  left. exact H2.
+Qed.
+
+(* ------------------------------------------------------------------ (3) sorted *)
+
+Lemma insert_scored_perm x l : Permutation (insert_scored x l) (x :: l).
+Proof.
+  induction l as [|y l IH]; cbn [insert_scored]; [reflexivity|].
+  destruct (fst x <? fst y); [reflexivity|].
+  rewrite IH. apply perm_swap.
+Qed.
+
+Lemma sort_scored_perm l : Permutation (sort_scored l) l.
+Proof.
+  unfold sort_scored. induction l as [|x l IH]; cbn [fold_right]; [reflexivity|].
+  rewrite insert_scored_perm. constructor. exact IH.
+Qed.
+
+Lemma tips_of_map_perm (f : tree -> tree) cs :
+  Forall (fun c => Permutation (tips (f c)) (tips c)) cs ->
+  Permutation (tips_of (map f cs)) (tips_of cs).
+Proof.
+  induction 1 as [|c cs Hc _ IH]; cbn [map]; [reflexivity|].
+  rewrite !tips_of_cons. apply Permutation_app; assumption.
+Qed.
+
+Lemma contrib_same dflt a b c c' :
+  tlen c' = tlen c -> Permutation (tips c') (tips c) ->
+  pathlen dflt c' a b = pathlen dflt c a b ->
+  contrib dflt a b c' = contrib dflt a b c.
+Proof.
+  intros Hl Ht Hp. unfold contrib, edge_w, clen.
+  rewrite (sep_perm c' c a b Ht), Hl, Hp. reflexivity.
+Qed.
+
+Lemma sorted_go_node order n l c cs :
+  snd (sorted_go order (Node n l (c :: cs))) =
+  Node n l (map snd (sort_scored (map (sorted_go order) (c :: cs)))).
+Proof. reflexivity. Qed.
+
+Lemma sorted_go_preserves t : forall order,
+  tname (snd (sorted_go order t)) = tname t /\
+  tlen (snd (sorted_go order t)) = tlen t /\
+  Permutation (tips (snd (sorted_go order t))) (tips t) /\
+  forall dflt a b, pathlen dflt (snd (sorted_go order t)) a b = pathlen dflt t a b.
+Proof.
+  induction t as [n l cs IH] using tree_ind'. intros order.
+  destruct cs as [|c0 cs0].
+  - cbn [sorted_go snd]. repeat split; reflexivity.
+  - rewrite sorted_go_node. set (cs := c0 :: cs0) in *.
+    set (f := fun c => snd (sorted_go order c)).
+    assert (HP : Permutation (map snd (sort_scored (map (sorted_go order) cs))) (map f cs)).
+    { rewrite sort_scored_perm, map_map. reflexivity. }
+    assert (Hne : map snd (sort_scored (map (sorted_go order) cs)) <> []).
+    { intros E. rewrite E in HP. apply Permutation_length in HP. discriminate. }
+    split; [reflexivity|]. split; [reflexivity|]. split.
+    + rewrite (tips_node _ _ _ Hne). rewrite (tips_of_perm _ _ HP).
+      rewrite (tips_node n l cs) by discriminate.
+      apply tips_of_map_perm. eapply Forall_impl; [|exact IH].
+      intros c Hc. apply (Hc order).
+    + intros dflt a b. rewrite !pathlen_node. rewrite (contribs_perm _ _ _ _ _ HP).
+      unfold contribs. rewrite map_map. apply zsum_map_ext.
+      eapply Forall_impl; [|exact IH]. intros c Hc. cbn beta.
+      destruct (Hc order) as (_ & Hl & Ht & Hp).
+      apply contrib_same; [exact Hl|exact Ht|apply Hp].
+Qed.
+
+Theorem sorted_preserves : forall dflt t order a b,
+  Permutation (tips (tree_sorted t order)) (tips t) /\
+  pathlen dflt (tree_sorted t order) a b = pathlen dflt t a b.
+Proof.
+  intros dflt t order a b. unfold tree_sorted.
+  destruct (sorted_go_preserves t (order ++ sort_names (tips t))) as (_ & _ & Ht & Hp).
+  split; [exact Ht|apply Hp].
+Qed.
+
+Lemma sorted_tname t order : tname (tree_sorted t order) = tname t.
+Proof. unfold tree_sorted. apply sorted_go_preserves. Qed.
+
+Lemma sorted_tlen t order : tlen (tree_sorted t order) = tlen t.
+Proof. unfold tree_sorted. apply sorted_go_preserves. Qed.
